@@ -8,7 +8,7 @@ S=$(mktemp -d /tmp/refchk.XXXXXX); trap 'rm -rf $S' EXIT
 rsync -a --exclude .git /repo/ $S/
 cd $S && git init -q . 2>/dev/null
 git apply $D/patch.diff 2>/dev/null || git apply --3way $D/patch.diff 2>/dev/null || patch -p1 -s < $D/patch.diff || { echo "$(basename $D) PATCH-DOES-NOT-APPLY"; exit 3; }
-suite=$(/verif/scripts/baseline.sh $S | grep "not passing now" | awk '{print $NF}')
+if [ -n "$SKIP_SUITE" ]; then suite=skipped; else suite=$(/verif/scripts/baseline.sh $S | grep "not passing now" | awk '{print $NF}'); fi
 res=""
 for p in $PROPS; do
   [ -f /tmp/baseline_bad_$p.json ] || /verif/scripts/basebad.sh $p >/dev/null 2>&1
